@@ -66,3 +66,89 @@ package check
 //@     after call storage.NewStaticTupleKeyIterator args ts returning s : staticIt = s ; staticOK = ts == ctxTs
 //@     after call iterator.Concat args a, b returning c : concatenated = true ; concatOK = staticOK && a == staticIt && b == base && converted ; cur = c
 //@     after call iterator.NewFilteredIterator args it, fs returning f : filtered = true ; filterArg = it ; filterRes = f
+
+// ------------------------------------------------------------------ C20: iterators opened by the weighted-graph engine are released
+// (release kernel: every datastore iterator opened by an edge resolver is stopped by a defer registered right after it
+// was obtained, on every path)
+//@ func (*Resolver).resolveRecursiveUserset(r, ctx, req, edge, visited, canApplyOptimization) (res, err)
+//@   property C20
+//@   option nosafety
+//@   ensures @iteratorReleased opened ==> released
+//@   monitor release
+//@     ghost cur iface = nil
+//@     ghost opened = false
+//@     ghost released = false
+//@     after call storage.RelationshipTupleReader.Read | storage.RelationshipTupleReader.ReadUsersetTuples | storage.RelationshipTupleReader.ReadStartingWithUser returning it, e : opened = e == nil ; cur = it ; released = false
+//@     after call defer:storage.Iterator.Stop | defer:storage.TupleKeyIterator.Stop | defer:storage.TupleIterator.Stop args recv : released = released || recv == cur
+
+//@ func (*Resolver).resolveRecursiveTTU(r, ctx, req, edge, visited, canApplyOptimization) (res, err)
+//@   property C20
+//@   option nosafety
+//@   ensures @iteratorReleased opened ==> released
+//@   monitor release
+//@     ghost cur iface = nil
+//@     ghost opened = false
+//@     ghost released = false
+//@     after call storage.RelationshipTupleReader.Read | storage.RelationshipTupleReader.ReadUsersetTuples | storage.RelationshipTupleReader.ReadStartingWithUser returning it, e : opened = e == nil ; cur = it ; released = false
+//@     after call defer:storage.Iterator.Stop | defer:storage.TupleKeyIterator.Stop | defer:storage.TupleIterator.Stop args recv : released = released || recv == cur
+
+//@ func (*Resolver).specificTypeWildcard(r, ctx, req, edge) (res, err)
+//@   property C20
+//@   option nosafety
+//@   ensures @iteratorReleased opened ==> released
+//@   monitor release
+//@     ghost cur iface = nil
+//@     ghost opened = false
+//@     ghost released = false
+//@     after call storage.RelationshipTupleReader.Read | storage.RelationshipTupleReader.ReadUsersetTuples | storage.RelationshipTupleReader.ReadStartingWithUser returning it, e : opened = e == nil ; cur = it ; released = false
+//@     after call defer:storage.Iterator.Stop | defer:storage.TupleKeyIterator.Stop | defer:storage.TupleIterator.Stop args recv : released = released || recv == cur
+
+//@ func (*Resolver).specificTypeAndRelation(r, ctx, req, edge, visited) (res, err)
+//@   property C20
+//@   option nosafety
+//@   ensures @iteratorReleased opened ==> released
+//@   monitor release
+//@     ghost cur iface = nil
+//@     ghost opened = false
+//@     ghost released = false
+//@     after call storage.RelationshipTupleReader.Read | storage.RelationshipTupleReader.ReadUsersetTuples | storage.RelationshipTupleReader.ReadStartingWithUser returning it, e : opened = e == nil ; cur = it ; released = false
+//@     after call defer:storage.Iterator.Stop | defer:storage.TupleKeyIterator.Stop | defer:storage.TupleIterator.Stop args recv : released = released || recv == cur
+
+//@ func (*Resolver).ttu(r, ctx, req, edge, visited) (res, err)
+//@   property C20
+//@   option nosafety
+//@   ensures @iteratorReleased opened ==> released
+//@   monitor release
+//@     ghost cur iface = nil
+//@     ghost opened = false
+//@     ghost released = false
+//@     after call storage.RelationshipTupleReader.Read | storage.RelationshipTupleReader.ReadUsersetTuples | storage.RelationshipTupleReader.ReadStartingWithUser returning it, e : opened = e == nil ; cur = it ; released = false
+//@     after call defer:storage.Iterator.Stop | defer:storage.TupleKeyIterator.Stop | defer:storage.TupleIterator.Stop args recv : released = released || recv == cur
+
+// ------------------------------------------------------------------ C19: no-panic sweep (thin, safety-only contracts)
+// every index and slice expression of these functions is in range for ALL inputs, with no precondition (generated by
+// bin/sweepgen, kept because every obligation discharges; callees without contract are treated as arbitrary)
+//@ func (*Recursive).buildTupleMapperForID(recv, a0, a1, a2, a3, a4, a5) (r0, r1)
+//@   property C19
+//@   option nosafety
+//@   option safety slice,index
+
+//@ func (*Recursive).execute(recv, a0, a1, a2, a3, a4, a5) (r0, r1)
+//@   property C19
+//@   option nosafety
+//@   option safety slice,index
+
+//@ func (*Request).buildContextualTupleMaps(recv)
+//@   property C19
+//@   option nosafety
+//@   option safety slice,index
+
+//@ func (*Weight2).execute(recv, a0, a1, a2) (r0, r1)
+//@   property C19
+//@   option nosafety
+//@   option safety slice,index
+
+//@ func (*bottomUp).setOperationSetup(recv, a0, a1, a2, a3) (r0, r1)
+//@   property C19
+//@   option nosafety
+//@   option safety slice,index
